@@ -459,6 +459,72 @@ def r_split(prog, R):
     r.info["split_calls"] = n
 
 
+def r_empty(prog, R):
+    r = R.rule("R-C15-EMPTY", "an empty configuration value is not reported as out of memory: the text handlers call the constructor that rejects empty input only after excluding the empty string", floor=2,
+               analysis="callee precondition (extracted) x dominating non-empty fact")
+    cc = prog.func("ares_buf_create_const")
+    rejects = any(b.term and b.term.get("cond") is not None and "data_len == 0" in render(b.term["cond"]) for b in cc.blocks.values())
+    if not r.require(rejects, "ares_buf_create_const no longer rejects an empty input (rule needs re-confirmation)"):
+        return
+    for f in sorted(prog.funcs.values(), key=lambda x: x.key):
+        if f.file not in ("src/lib/ares_sysconfig_files.c", "src/lib/ares_sysconfig.c"):
+            continue
+        mf = None
+        for b, i, c in f.calls_to("ares_buf_create_const"):
+            src = strip(call_arg(c, 0))
+            while src is not None and src.get("k") == "cast":
+                src = strip(src["e"])
+            sk = render(src)
+            if mf is None:
+                mf = MustFacts(f, track_calls=False)
+            nonempty = False
+            for c3, p3 in mf.cond_facts_at(b, i):
+                t = render(c3)
+                op, l3, r3 = norm_cmp(c3, p3)
+                if sk in t and (("ares_strlen" in t and ((op in ("!=", ">") and r3 is not None and const_val(r3) == 0) or op == "truth")) or ("*" in t and op in ("!=", "truth"))):
+                    nonempty = True
+            # what happens to a NULL result
+            k = "fn=%s ares_buf_create_const(%s)" % (f.name, sk)
+            enomem = False
+            g = call_result_branches(f, "ares_buf_create_const")
+            for el in [e2 for _, _, e2 in f.elements() if e2["k"] == "ret" and name_of_const(e2.get("e")) == "ARES_ENOMEM"] + [e2 for _, _, e2 in f.elements() if e2["k"] == "asg" and name_of_const(e2["e"].get("r")) == "ARES_ENOMEM"]:
+                enomem = True
+            callers_guard = _all_callers_nonempty(prog, f, c)
+            if nonempty or callers_guard:
+                r.ok(k + " (non-empty)", f.loc(c["ln"]))
+            elif enomem:
+                r.viol(k, f.name, f.loc(c["ln"]), "%s builds a buffer over '%s' without excluding the empty string; ares_buf_create_const() returns NULL for it and %s reports ARES_ENOMEM: an empty value (e.g. a variable that is set but empty) aborts the whole configuration" % (f.name, sk, f.name))
+            else:
+                r.ok(k, f.loc(c["ln"]))
+
+
+def _all_callers_nonempty(prog, f, c):
+    """every caller passes a string it has tested to be non-empty (`*value == 0 -> return` before the call)"""
+    src = strip(call_arg(c, 0))
+    while src is not None and src.get("k") == "cast":
+        src = strip(src["e"])
+    if src is None or src.get("k") != "var" or src.get("vk") != "param":
+        return False
+    pidx = f.param_index(src["n"])
+    # only the file / environment handlers matter: a direct API call with an empty string may be answered with an error
+    callers = [x for x in prog.callers_of(f) if x[0].file in ("src/lib/ares_sysconfig_files.c", "src/lib/ares_sysconfig.c")]
+    if not callers:
+        return False
+    for (cf, cb, ci, cc) in callers:
+        a = strip(call_arg(cc, pidx))
+        ak = render(a)
+        mf = MustFacts(cf, track_calls=False)
+        okc = False
+        for c3, p3 in mf.cond_facts_at(cb, ci):
+            t = render(c3)
+            op, l3, r3 = norm_cmp(c3, p3)
+            if ak in t and "*" in t and (op in ("!=", "truth")):
+                okc = True
+        if not okc:
+            return False
+    return True
+
+
 def run(prog, R, tier):
     R.assume("callees are given valid (non-NULL) pointers by the configuration parsers (defensive NULL-argument returns are not part of the return sets)")
     ownrules.own_rule(prog, R, "R-C15-OWN", FILES, floor=30)
@@ -468,3 +534,4 @@ def run(prog, R, tier):
     r_accum(prog, R)
     r_keep(prog, R)
     r_split(prog, R)
+    r_empty(prog, R)
